@@ -286,6 +286,33 @@ func c13(r *engine.Report, p *engine.Program) {
 		ok2 := cancelCall != nil && baseRel != nil && engine.Reach(cr, nil, nil, func(in ssa.Instruction) bool { return in == cancelCall }, func(in ssa.Instruction) bool { return in == baseRel }) == nil
 		r.Check("R5-cancel", "commandUnit.Release: cancels before releasing", cr.Pos(), ok2, "the base release is reached only after Cancel()", "a command unit can be released without cancelling its process")
 	}
+	// R6 the "finished" predicate every other rule and every poller relies on
+	if ic := p.Func("workceptor.IsComplete"); ic != nil {
+		want := map[string]bool{"WorkStatePending": false, "WorkStateRunning": false, "WorkStateSucceeded": true, "WorkStateFailed": true, "WorkStateCanceled": false}
+		okAll := true
+		got := map[string]string{}
+		for name, w := range want {
+			c := p.Const("workceptor", name)
+			if c == nil {
+				r.Broken("constant %s not found", name)
+				return
+			}
+			v, ok := evalPureIntPredicate(ic, constIntVal(c))
+			if !ok {
+				got[name] = "?"
+				okAll = false
+				continue
+			}
+			got[name] = fmt.Sprint(v)
+			if v != w {
+				okAll = false
+			}
+		}
+		r.Check("R6-final-states", "IsComplete: true exactly for Succeeded and Failed", ic.Pos(), okAll,
+			fmt.Sprintf("evaluated for all five states: %v", got), fmt.Sprintf("evaluated for all five states: %v — pollers (results stream, status mirror, restart) stop too early or never", got))
+	} else {
+		r.Broken("IsComplete not found")
+	}
 	_ = sort.Strings
 	_ = token.NoPos
 }
